@@ -95,7 +95,8 @@ def finish(prop, obs, t0, level='proof', functions=None, bounds=None, trusted=No
             kf = finding_for(prop, o.key) if o.key else None
             if kf:
                 o.status = 'known'
-                lines.append(f"KNOWN-FINDING: property={prop} {kf['what']}")
+                l = f"KNOWN-FINDING: property={prop} {kf['what']}"
+                if l not in lines: lines.append(l)
             else:
                 nviol += 1
                 rp = (o.model or {}).get('replay', 'none')
@@ -115,7 +116,8 @@ def finish(prop, obs, t0, level='proof', functions=None, bounds=None, trusted=No
         e = engines.setdefault(o.engine or 'n/a', {'queries': 0, 'solver_s': 0.0})
         e['queries'] += 1; e['solver_s'] = round(e['solver_s'] + o.secs, 3)
     cov = {
-        'obligations': len(obs), 'discharged': proved + known,
+        'obligations': len(obs) - known, 'discharged': proved,
+        'known_finding_obligations': [f'{o.name}: {o.detail[:200]}' for o in obs if o.status == 'known'][:20],
         'checker_cmd': checker_cmd or f'./check {prop} --tier {tier()}',
         'trusted_base': trusted or [],
         'samples': samples,
